@@ -335,6 +335,17 @@ func TestC03(t *testing.T) {
 		marks := marksOf(src, starts)
 		run(rt, c03Case{Src: src, Verdict: "incomplete", Marks: marks, How: "unterminated " + tail + " appended"}, len(us)+1, 1, true)
 		st.Class("unterminated_tail")
+		// (iv) a word with a malformed expansion: the length form takes no operator
+		if lastTop.Kind != gen.KOp {
+			bad := rapid.SampledFrom([]string{"${#x:-y}", "${#x%y}", "${#x=y}", "${#x+y}", "${#x?}", "${#1-}", `"${#x:-y}"`, "a${#x#y}b", "${#x:=}", "${#foo##*}"}).Draw(rt, "badword")
+			src := base + " " + bad + "\n"
+			starts := append([]int{}, r.Starts...)
+			for o := len(base) + 1; o < len(src); o++ {
+				starts = append(starts, o)
+			}
+			run(rt, c03Case{Src: src, Verdict: "invalid", Marks: marksOf(src, starts), How: "word with the malformed expansion " + bad + " appended"}, len(us)+2, 1, true)
+			st.Class("malformed_expansion")
+		}
 		featStats(st, p)
 	}
 	runRapid(t, n, prop)
